@@ -99,7 +99,9 @@ fn check_cert<L: Tab>(f: &TT, g: Grp) -> Result<Option<TT>, (String, String)> {
     let n = f.n;
     let r = guarded(|| canon::<L>(&mk_tt(f), g));
     let (rep, perm, mask) = match r {
-        Err(_) => return Ok(None),
+        // no certificate at all: the statement requires one for every f, "also when f is
+        // already its own representative" (termination as such is C04's clause)
+        Err(p) => return fail(format!("{}_canonization returns a certificate (permutation, mask) for {}", g.name(), show_tt(f)), p),
         Ok(x) => x,
     };
     let rt = match abs(&rep) {
@@ -195,6 +197,8 @@ fn report(l: &mut Local, mode: Mode, st: bool, f: &TT, g: Grp, kind: &str, gen: 
         Mode::C05 => {
             if v.1.contains("(the input is its own representative)") {
                 format!("C05/{}/input-is-representative", g.name())
+            } else if panic {
+                format!("C05/{}/panic/{}", g.name(), if f.n <= 1 { "n<=1" } else { "n>=2" })
             } else {
                 format!("C05/{}/certificate", g.name())
             }
@@ -659,7 +663,7 @@ pub fn run_mode(run: &Run, mode: Mode) {
     let plan: Vec<(usize, Grp, usize, usize)> = if t {
         vec![(6, Grp::P, 20000, 50), (6, Grp::N, 20000, 50), (6, Grp::Npn, 20000, 100), (7, Grp::P, 3000, 50), (7, Grp::N, 3000, 50), (7, Grp::Npn, 500, 25), (8, Grp::P, 600, 50), (8, Grp::N, 2000, 50), (8, Grp::Npn, 60, 10)]
     } else {
-        vec![(6, Grp::P, 1500, 50), (6, Grp::N, 1500, 50), (6, Grp::Npn, 1000, 100), (7, Grp::P, 200, 40), (7, Grp::N, 300, 40), (7, Grp::Npn, 40, 10), (8, Grp::P, 40, 20), (8, Grp::N, 100, 25), (8, Grp::Npn, 6, 3)]
+        vec![(6, Grp::P, 1500, 50), (6, Grp::N, 1500, 50), (6, Grp::Npn, 1000, 100), (7, Grp::P, 400, 40), (7, Grp::N, 600, 40), (7, Grp::Npn, 96, 12), (8, Grp::P, 64, 16), (8, Grp::N, 200, 25), (8, Grp::Npn, 16, 4)]
     };
     for (n, g, count, meta) in plan {
         family_section(run, mode, n, g, count, if mode == Mode::C04 { meta } else { 0 });
